@@ -150,6 +150,17 @@ def check_oracle_hypotheses(ctx, cases):
             ctx.mismatch('group-split-oracle-hypotheses', case, 'batch_oracle_okb = false', 'splits recorded from re.match')
     ctx.extra['oracle_hypotheses_checked'] = len(todo)
     ctx.extra['oracle_hypotheses_failed'] = bad
+    # the text theorem (C03_batch_text_covers) is stated for runs without extra letters whose patterns are renderable
+    plain = [(case, p) for case, p in todo if not p[1]]
+    outs = ctx.model.call_many(31, [[p[0], p[2], p[3], p[4]] for _, p in plain])
+    nr = 0
+    for (case, _), o in zip(plain, outs):
+        if o != 1:
+            nr += 1
+            ctx.mismatch('text-theorem-hypotheses', case, 'batch_renderable = false', 'a run without extra letters')
+    ctx.extra['text_theorem_runs_in_scope(no extra letters)'] = len(plain)
+    ctx.extra['text_theorem_runs_outside_scope(extra letters)'] = len(todo) - len(plain)
+    ctx.extra['text_theorem_hypotheses_failed'] = nr
 
 
 def check_regex_model(ctx, cases, limit=4000):
